@@ -403,4 +403,16 @@ theorem view_constructors_as_translated_from_source (m : Mode) (k : Nat) (file :
   ⟨GenEq.mapped_slice_view_eq m k file offset, GenEq.mapped_bytes_view_eq m file offset, GenEq.raw_mapper_view_eq m file offset,
    fun h => GenEq.int_mapper_view_eq_of_size m file offset h, GenEq.raw_mapper_map_offset_eq m, GenEq.int_mapper_map_offset_eq m⟩
 
+/-- **`MappedStr::new` as translated from the source on this run** (`Generated/FnsMapNew.lean`): the range tests and the header
+read of `MappedBytes::new`, then `str::from_utf8(bytes).map_err(..)?` with the standard library's validity test as the
+named parameter `valid` (as in the model's string codec).  It is the translated `MappedBytes::new` followed by that test,
+and the model's string view is exactly the image of what it returns, faults included. -/
+theorem mapped_str_new_as_translated_from_source (m : Mode) (valid : List UInt8 → Bool) (file : Array Word) (offset : Nat) :
+    Generated.gen_MappedStr_new m valid file offset
+      = (Generated.gen_MappedBytes_new m file offset).bind
+          (fun r => if valid (payloadBytes r.data) then ok r else fault (.err .invalid)) ∧
+    View.str m valid file offset
+      = (Generated.gen_MappedStr_new m valid file offset).bind (fun r => ok (GenEq.mn_bytesView r)) :=
+  ⟨GenEq.mapped_str_new_eq_bytes m valid file offset, GenEq.mapped_str_view_eq m valid file offset⟩
+
 end Sds.C13
